@@ -174,4 +174,39 @@ def dirExistsAt (fs : Fs) (wd : CPath) (path : Bytes) : Bool :=
 /-- File::time: true iff `stat` (following links) finds something -/
 def fileTime (fs : Fs) (path : Bytes) : Bool := isOk (sysStat fs path true)
 
+/-- File::isExecutable (stat + any x bit) in the closed world of the library: Directory::create makes directories with
+    mode 0755, File::open / File::copy / the rename placeholder make files with 0644, nothing changes a mode afterwards
+    (ASSUMED: the umask leaves these bits) — so the answer is "stat finds a directory" -/
+def fileIsExecutable (fs : Fs) (path : Bytes) : Bool :=
+  match sysStat fs path true with
+  | .ok .dir => true
+  | _ => false
+
+/-! ### environment choices: failing lseek in File::open, short buffers in getcwd -/
+
+/-- File::open when the environment lets the lseek of the append branch fail (File.cpp:130-137): the descriptor is
+    closed and `false` returned; what ::open did to the world before (O_CREAT) stays.  Third component: did the failure
+    fire (it does not without appendFlag, or when ::open fails or finds a directory) -/
+def fileOpenF (fs : Fs) (path : Bytes) (flags : Nat) : Fs × Option Fd × Bool :=
+  match sysOpen fs path (openFlags flags) with
+  | (fs', .error _) => (fs', none, false)
+  | (fs', .ok fd) =>
+    if fd.isDir = true then (fs', none, false)
+    else if hasFlag flags appendFlag then (fs', none, true)
+    else (fs', some fd, false)
+
+/-- ASSUMED getcwd(buf, size): ERANGE unless the text with its terminator fits — and unless `size` reaches what the
+    environment demands (`need`: a longer real path than the model's text, e.g. a deep scratch directory) -/
+def sysGetcwd (text : Bytes) (need size : Nat) : Option Bytes :=
+  if text.length + 1 ≤ size ∧ need ≤ size then some text else none
+
+/-- Directory::getCurrentDirectory: `result.resize(PATH_MAX); for(;;) { if(getcwd(...)) return …; if(errno == ERANGE)
+    { result.resize(result.length() * 2); continue; } return String(); }` -/
+def getcwdLoop (text : Bytes) (need : Nat) : Nat → Nat → Option Bytes
+  | 0, _ => none
+  | fuel + 1, size =>
+    match sysGetcwd text need size with
+    | some t => some t
+    | none => getcwdLoop text need fuel (size * 2)
+
 end Nstd.Path
